@@ -1,6 +1,7 @@
 use rustc_version::{version, Version};
 
 fn main() {
+    println!("cargo:rustc-check-cfg=cfg(h33p_cglue_verif)");
     let version = version().unwrap();
     if version >= Version::parse("1.57.0").unwrap() {
         println!("cargo:rustc-cfg=const_panic_on_stable");
